@@ -158,3 +158,48 @@ def _records():
 
 def _votes_base(lead):
     return 1 if lead else 0
+
+
+# ------------------------------------------------------------------ O2 lines of identical content
+DATA_DUP = "h1,h2\nx,y\nx,y\nz,w\nx,y\n"
+RECS_DUP = [["h1", "h2"], ["x", "y"], ["x", "y"], ["z", "w"], ["x", "y"]]
+DUP_MEMBERS = ['~id:a~ $[*][ gt(line_number(), symta()) ]', '~id:c~ $[*][ not(gt(line_number(), symtc())) ]']
+
+
+@ob(
+    "C08",
+    "O2-identical-lines",
+    pre=["{LO} <= ta <= {HI}"],
+    post="_ == ''",
+    bound="two members (line_number() > ta; not line_number() > tc; every tc of the window is a shard) over a 5-record file "
+    "with three records of identical content; ta, tc symbolic LO..HI, if_all_agree symbolic: the caller of collect_by_line and of "
+    "next_by_line gets, per physical line, the union / intersection of the members' decisions - a line is not dropped or merged "
+    "because an identical one was already returned; each member's own lines likewise",
+    outside="more than two members; stop/skip inside the members (O1)",
+    encodes=ENC,
+    tiers={"quick": {"timeout": 1200, "K": {"LO": -1, "HI": 5}, "shards": product(agree=[False, True], tc=[-1, 0, 1, 2, 3, 4, 5])}},
+)
+def identical_lines(agree: bool, ta: int, tc: int) -> str:
+    kit.HOLD["symta"] = ta
+    kit.HOLD["symtc"] = tc
+    va = [i > ta for i in range(5)]
+    vc = [i <= tc for i in range(5)]
+    want = [RECS_DUP[i] for i in range(5) if ((va[i] and vc[i]) if agree else (va[i] or vc[i]))]
+    with NoTracing():
+        root, cs = kitpaths.env({"g": DUP_MEMBERS}, data=DATA_DUP)
+        cs2 = kitpaths.new_instance()
+    got = [list(x) for x in cs.collect_by_line(filename="data", pathsname="g", if_all_agree=agree)]
+    got2 = [list(x) for x in cs2.next_by_line(filename="data", pathsname="g", if_all_agree=agree)]
+    members = _group_states(cs)
+    problems = ""
+    with NoTracing():
+        if got != want:
+            problems += f"collect_by_line returned {got}, expected {want}; "
+        if got2 != want:
+            problems += f"next_by_line yielded {got2}, expected {want}; "
+        wa = [RECS_DUP[i] for i in range(5) if va[i]]
+        wc = [RECS_DUP[i] for i in range(5) if vc[i]]
+        if len(members) == 2 and (members[0][0] != wa or members[1][0] != wc):
+            problems += f"members kept {members[0][0]} / {members[1][0]}, expected {wa} / {wc}; "
+        kitpaths.cleanup(root)
+    return problems
